@@ -74,6 +74,8 @@ pub struct ParseState<'s> {
     utf16_col: u32,
     auto_skip_whitespace: Option<for<'ss> fn(&mut ParseState<'ss>) -> Option<Range<Position>>>,
     warnings: Vec<ParseError>,
+    /// how many elements were moved out of the node list so far (`<template name>`, `<wxs>`, `<import>`)
+    hoisted_elements: usize,
 }
 
 impl<'s> ParseState<'s> {
@@ -96,6 +98,7 @@ impl<'s> ParseState<'s> {
             utf16_col: position_offset.utf16_col,
             auto_skip_whitespace: None,
             warnings: vec![],
+            hoisted_elements: 0,
         }
     }
 
@@ -158,6 +161,14 @@ impl<'s> ParseState<'s> {
     }
 
     /// Try parse with `f` , reverting the state if it returns `None` .
+    pub(crate) fn hoisted_elements(&self) -> usize {
+        self.hoisted_elements
+    }
+
+    pub(crate) fn count_hoisted_element(&mut self) {
+        self.hoisted_elements += 1;
+    }
+
     pub(crate) fn try_parse<T>(&mut self, f: impl FnOnce(&mut Self) -> Option<T>) -> Option<T> {
         #[cfg(feature = "verif_hooks")]
         crate::verif_hooks::step();
